@@ -603,7 +603,11 @@ def run_workload(ch: Choices, variant: str, callers: List[List[dict]], uploads_s
                 async def main():
                     if concurrent:
                         tasks = [asyncio.ensure_future(caller(ci)) for ci in range(len(callers))]
-                        done, pend = await asyncio.wait(tasks, timeout=sched_knobs.get("budget", 3600.0))
+                        # bounded liveness: a caller issues its calls one after another, each call is delayed by at most
+                        # one request latency + one response latency of the slowest profile (600 s each)
+                        longest = max([len(v) for v in by_caller.values()] + [1])
+                        budget = max(sched_knobs.get("budget", 3600.0), 60.0 + longest * sched_knobs.get("per_call_budget", 1300.0))
+                        done, pend = await asyncio.wait(tasks, timeout=budget)
                         for t in pend:
                             t.cancel()
                         if pend:
